@@ -11,7 +11,7 @@ import json,subprocess,sys
 wt,dest,res,base=sys.argv[1:5]
 d=json.load(open(wt+'/OUT/meta.json'))
 d['base_commit']=subprocess.check_output(['git','-C','/repo','rev-parse','HEAD']).decode().strip()
-d['round']=6
+d['round']=7
 d['confirmed_by_me']={"script":"tools/seed_verify.sh","result":res,"baseline":base}
 json.dump(d,open('/verif/seeded/'+dest+'/meta.json','w'),indent=1)
 P
